@@ -162,6 +162,52 @@ def result_alternatives(b, X):
     return out
 
 
+def _external_code_table(F, X, b, nx):
+    """wait_payment hands the per-part error to a crate function returning Result<(), _> that switches on the error's `code`:
+    -> (call, helper body, codes whose arm returns Ok, default arm returns Ok?, codes reaching both, Err verdict re-enters the loop?, Ok results under the Err verdict)"""
+    for c in b.calls:
+        hb = F.by_cdef.get(c.resolved or c.name)
+        if hb is None or c.noise or not re.match(r"^(std::result::|anyhow::)?Result<\(\)(, .*)?>$", (hb.ret_ty or "").strip()):
+            continue
+        isw = None
+        for bb in sorted(hb.reachable):
+            d = lib.decode_switch(hb, bb)
+            if d is not None and d.kind == "int" and d.place is not None and any(x[0] == "field" and x[1] == "code" for x in walk(strip(X.place(hb, d.place)))):
+                isw = (bb, d)
+        if isw is None:
+            continue
+        ras = result_alternatives(hb, X)
+        t = hb.term(isw[0])
+
+        def kinds(tg):
+            r = hb.reach([tg])
+            return {k for k, _e, sbb, _w in ras if sbb in r}
+        cont, mixed = set(), set()
+        for v, tg in t["arms"]:
+            code = int(v)
+            if code >= 2**31:
+                code -= 2**32
+            ks = kinds(tg)
+            if ks == {"Ok"}:
+                cont.add(code)
+            elif "Ok" in ks:
+                mixed.add(code)
+        oth = "Ok" in kinds(t["otherwise"])
+        # Ok anywhere else in the classifier (an error without code, a transport error) would be tolerated too
+        rest = {k for k, _e, sbb, _w in ras if sbb not in hb.reach([isw[0]])}
+        if "Ok" in rest:
+            oth = True
+        # in wait_payment: the verdict goes through `?`; its Break arm leaves the loop and yields no Ok
+        sw = ml.arms_of_place_switch(b, X, lambda ee: any(y[0] == "call" and y[1] == "std::ops::Try::branch" and any(z[0] == "call" and z[3][1] == c.bb and z[1] == c.name for z in walk(y)) for y in alts(ee)))
+        back, okunder = True, []
+        if sw and sw[1].get("Break") is not None:
+            r = b.reach([sw[1]["Break"]])
+            back = nx.bb in r
+            okunder = [w for k, _e, sbb, w in result_alternatives(b, X) if sbb in r and k == "Ok"]
+        return (c, hb, cont, oth, mixed, back, okunder)
+    return None
+
+
 def enum_facts(b, X, bb):
     out = []
     for c, truth in lib.dominating_conditions(b, bb):
@@ -588,7 +634,19 @@ def v_wait_payment(C, rep, pfx):
                 e = strip(X.place(b, c.place))
                 if any(x[0] == "field" and x[1] == "code" for x in walk(e)):
                     isw = (bb, c, e)
-        rep.anchor(rid, "switch on the RPC error code", 1 if isw else 0, fn=fn)
+        ext = None
+        if isw is None and NX:
+            # the code table was moved into a classifier (`e.into_failed_part()?`: Ok(()) = a failed part, Err = give up)
+            ext = _external_code_table(F, X, b, NX[0])
+        rep.anchor(rid, "switch on the RPC error code", 1 if (isw or ext) else 0, fn=fn)
+        if ext and NX:
+            call, hb, cont, oth, mixed, brk_reaches_loop, okunder = ext
+            ok = cont == {202, 203, 204, 208, 209} and not mixed
+            rep.ob(rid, ok, fn, "tolerated code set", where=call.loc, how=str(sorted(cont)), detail="" if ok else "waitsendpay error codes %s continue the wait (expected 202,203,204,208,209)%s" % (sorted(cont), " - codes %s both continue and fail" % sorted(mixed) if mixed else ""))
+            rep.ob(rid, not oth, fn, "unknown codes abort with an error", where=call.loc, how="default arm of %s returns Err" % hb.cdef.split("::")[-1], detail="" if not oth else "unknown error codes are tolerated")
+            rep.ob(rid, not brk_reaches_loop, fn, "only tolerated part-level codes continue the wait", where=call.loc, how="the classifier's Err leaves the wait loop",
+                   detail="" if not brk_reaches_loop else "the classifier's error verdict does not end the wait: an error other than the tolerated part-level codes is swallowed")
+            rep.ob(rid, not okunder, fn, "an error never turns into a result", where=okunder[0] if okunder else call.loc, how="no Ok(..) under the classifier's Err", detail="" if not okunder else "a waitsendpay error is mapped to Ok at %s" % okunder[0])
         if isw and NX:
             bb, c, e = isw
             nx = NX[0]
